@@ -1,7 +1,7 @@
 (* C17: instantiation of the generic field / polynomial / Reed-Solomon theorems
    at every field the library constructs (tables dumped from /repo by gotab). *)
 From Coq Require Import FMapPositive.
-From Verif Require Import Prelude GFM TabGF GFSpec GFP PolyP RSP.
+From Verif Require Import Prelude GFM TabGF GFSpec GFP PolyP PolyCoefP RSP.
 
 (* the dumped run-time tables are exactly what the model of NewGaloisField
    builds from the primitive polynomials of the standards *)
@@ -98,12 +98,15 @@ Theorem poly_division : forall f, In f library_fields ->
   forall p g, poly_ok f p -> poly_ok f g -> poly_is_zero g = false ->
   exists q r, poly_div f p g = Ok (q, r) /\ poly_ok f q /\ poly_ok f r
     /\ ((length r < length g)%nat \/ poly_is_zero r = true)
+    /\ poly_add (poly_mul f q g) r = p
     /\ forall y, in_field f y ->
        poly_eval f p y = Z.lxor (gf_mul f (poly_eval f q y) (poly_eval f g y)) (poly_eval f r y).
 Proof.
   intros f Hin p g [Hpn Hpr] [Hgn Hgr] Hgz. pose proof (lib_ok f Hin) as Hok.
   destruct (poly_div_eval f Hok p g Hpn Hpr Hgn Hgr Hgz) as (q & r & H1 & H2 & H3 & H4 & H5 & H6 & H7).
-  exists q, r. unfold poly_ok. repeat split; auto.
+  exists q, r. unfold poly_ok.
+  split; [exact H1|]. split; [split; assumption|]. split; [split; assumption|]. split; [exact H6|].
+  split; [exact (poly_div_coef f Hok p g q r Hpn Hpr Hgn Hgr Hgz H1)|exact H7].
 Qed.
 
 Definition request_ok (f : gfield) (r : list Z * Z) : Prop :=
